@@ -612,9 +612,10 @@ theorem emitName_respects_max (e : Enc) (n : Name) (happ : e.offset = e.buf.leng
 theorem ptrInvH_starts_lt {H : Nat × Nat → Prop} {e : Enc} (hinv : PtrInvH H e) :
     ∀ p ∈ e.ptrs, p.1 < e.offset := by
   intro p hp
-  obtain ⟨ls, en, F, _, h2, h3, _⟩ := hinv p hp
-  have := h2.pos_lt_end
-  omega
+  rcases hinv p hp with ⟨ls, en, F, _, h2, h3, _⟩ | ⟨hlt, _⟩
+  · have := h2.pos_lt_end
+    omega
+  · exact hlt
 
 theorem ptrInvH_emitIterFrom {H : Nat × Nat → Prop} : ∀ (items : List (Enc → ERes Unit)) (e : Enc) (c : Nat),
     (∀ it ∈ items, Appender it) → (∀ it ∈ items, InvPreserving it) →
